@@ -279,6 +279,22 @@ func listensCtl(t *task, c chan process.ControlMessage) bool {
 	return false
 }
 
+// doomed: releasing the task makes a send case on a closed channel ready, which
+// panics at once; such a task is offered only its own "closed" transition and
+// never as the partner of a pair (two ready cases would toss Go's hidden coin).
+func (s *sched) doomed(t *task) bool {
+	if t.state != stOp {
+		return false
+	}
+	switch t.kind {
+	case process.SimSend, process.SimSelectSendNP:
+		return t.data != nil && s.closed[t.data]
+	case process.SimSelectFwdNP:
+		return t.ctlOut != nil && s.closedCtl[t.ctlOut]
+	}
+	return false
+}
+
 func (s *sched) enabled(cancelled bool) []trans {
 	var out []trans
 	for _, t := range s.order {
@@ -302,7 +318,7 @@ func (s *sched) enabled(cancelled bool) []trans {
 					}
 				} else {
 					for _, r := range s.order {
-						if r != t && isRecvOn(r, t.data) {
+						if r != t && isRecvOn(r, t.data) && !s.doomed(r) {
 							if cancelled && (hasCtx(r.kind) || hasCtx(t.kind)) {
 								continue // both the data case and ctx.Done would be ready: not replayable, not offered
 							}
@@ -333,7 +349,7 @@ func (s *sched) enabled(cancelled bool) []trans {
 					break
 				}
 				for _, r := range s.order {
-					if r != t && listensCtl(r, t.ctlOut) {
+					if r != t && listensCtl(r, t.ctlOut) && !s.doomed(r) {
 						if cancelled && hasCtx(r.kind) {
 							continue
 						}
